@@ -17,7 +17,7 @@ import sys
 sys.path.insert(0, os.path.dirname(os.path.abspath(__file__)))
 from _util import exc_class, rng, limbs, TIER  # noqa: E402
 
-from Crypto.Cipher import AES  # noqa: E402
+from Crypto.Cipher import AES, _EKSBlowfish  # noqa: E402,F401  (bcrypt imports it lazily: load it before the recording starts)
 from Crypto.Hash import (CMAC, HMAC, MD2, MD4, MD5, RIPEMD160, SHA1, SHA224, SHA256, SHA384, SHA512, SHA3_224, SHA3_256,  # noqa: E402
                          SHA3_384, SHA3_512)
 from Crypto.Protocol import KDF  # noqa: E402
@@ -496,7 +496,7 @@ def fam_scrypt():
                (2, 1, 2 ** 30, "p = 2^30 with r = 1"), (2, 2 ** 30, 1, "r = 2^30"), (2, 2 ** 15, 2 ** 15, "p = r = 2^15"), (2, 8, 2 ** 27, "p = 2^27 with r = 8"),
                (2, 1, 2 ** 40, "p = 2^40"), (2, 2 ** 33, 1, "r = 2^33"), (4, 3, (2 ** 30 - 1) // 3 + 1, "p just above (2^30 - 1) / r with r = 3")]
     if QUICK:
-        outside = outside[:4] + pick(r, outside[4:8], 2) + outside[8:10] + outside[13:15] + pick(r, outside[16:], 3)
+        outside = outside[:4] + pick(r, outside[4:8], 2) + outside[8:10] + outside[13:15] + outside[16:18] + pick(r, outside[18:], 2)
     for N, r_, p, note in outside:
         one(N, r_, p, r.choice([16, 32]), r.choice([1, 1, 2]), False, note=note)
 
